@@ -18,7 +18,7 @@ import (
 
 type LCaller struct {
 	StartS int    `json:"start_s"` // start at StartS seconds + 100ms + index ms
-	Ctx    string `json:"ctx"`     // bg | deadline | cancel
+	Ctx    string `json:"ctx"`     // bg (no deadline, cancellable only by the harness) | background (context.Background itself) | deadline | cancel
 	TS     int    `json:"t_s"`     // deadline / cancel after TS seconds (relative to start)
 	Entry  string `json:"entry"`   // lookup | updater | apply | secret
 }
@@ -79,6 +79,8 @@ func runC16Bubble(c LookupCase, info *h.Info) *h.Violation {
 			time.Sleep(starts[i])
 			ctx, cancel := base, context.CancelFunc(func() {})
 			switch cl.Ctx {
+			case "background":
+				ctx = context.Background()
 			case "deadline":
 				ctx, cancel = context.WithTimeout(base, time.Duration(cl.TS)*time.Second)
 			case "cancel":
@@ -202,7 +204,7 @@ func runC16Bubble(c LookupCase, info *h.Info) *h.Violation {
 			return h.V("all-callers-return", "caller %d %+v had not returned 40 minutes after the start (requests so far: %d)", i, cl, len(reqs))
 		}
 		took := r.at - starts[i]
-		if cl.Ctx == "bg" && took > 5*time.Minute {
+		if (cl.Ctx == "bg" || cl.Ctx == "background") && took > 5*time.Minute {
 			return h.V("no-deadline-caller-answered-within-five-minutes", "caller %d %+v (no deadline) returned after %v, err=%v; requests: %s", i, cl, took, r.err, fmtReqs(reqs))
 		}
 		if r.panicked {
@@ -225,7 +227,7 @@ func runC16Bubble(c LookupCase, info *h.Info) *h.Violation {
 					continue
 				}
 				end := starts[j] + 5*time.Minute
-				if oc.Ctx != "bg" && time.Duration(oc.TS)*time.Second < 5*time.Minute {
+				if oc.Ctx != "bg" && oc.Ctx != "background" && time.Duration(oc.TS)*time.Second < 5*time.Minute {
 					end = starts[j] + time.Duration(oc.TS)*time.Second
 				}
 				if end > latestOther {
@@ -316,7 +318,7 @@ func genLookupCase(rt *rapid.T) LookupCase {
 	for i := 0; i < n; i++ {
 		cl := LCaller{
 			StartS: rapid.SampledFrom([]int{0, 0, 0, 1, 5, 60, 200, 299, 301}).Draw(rt, "start"),
-			Ctx:    rapid.SampledFrom([]string{"bg", "bg", "deadline", "cancel"}).Draw(rt, "ctx"),
+			Ctx:    rapid.SampledFrom([]string{"bg", "background", "deadline", "cancel"}).Draw(rt, "ctx"),
 			TS:     rapid.SampledFrom([]int{1, 2, 10, 100, 299, 301, 500, 900}).Draw(rt, "t"),
 			Entry:  rapid.SampledFrom([]string{"lookup", "lookup", "lookup", "updater", "apply", "secret"}).Draw(rt, "entry"),
 		}
